@@ -4,6 +4,7 @@
   tools/seedcheck.py confirm <seed-id> <worktree> <property>     copy patch+demo into /verif/seeded/<seed-id>/, verify in a fresh scratch
                                                                   worktree: demo passes without, fails with; baseline tests pass with
   tools/seedcheck.py detect <seed-id> [extra check.py args]      apply the patch to /repo, run the property's quick check, undo
+  tools/seedcheck.py regress [seed-id ...]                       re-run all stored seeds against the checks that caught them (scratch worktree)
 
 Nothing is ever committed to /repo; /repo is restored with `git checkout -- .` afterwards.
 """
@@ -122,7 +123,51 @@ def detect(seed, extra):
     return 0
 
 
+def regress(ids):
+    """re-run, for every stored seeded change, the checks recorded as catching it - on ONE scratch worktree outside /repo and /verif
+    (patch applied, checks run with VERIF_REPO pointing at it, patch reverted), removed at the end.  A regression aid for the
+    machinery itself: a strengthened check must not stop catching an older seed."""
+    wt = "/tmp/seedregress-%d" % os.getpid()
+    sh("git -C /repo worktree remove --force %s" % wt)
+    rc, out = sh("git -C /repo worktree add --detach %s HEAD" % wt)
+    if rc:
+        print(out)
+        return 2
+    bad = []
+    try:
+        for sid in sorted(os.listdir(os.path.join(VERIF, "seeded"))):
+            if ids and sid not in ids:
+                continue
+            d = os.path.join(VERIF, "seeded", sid)
+            meta = json.load(open(os.path.join(d, "meta.json")))
+            props = meta.get("detected_by") or [meta["property"]]
+            rc, out = sh("git apply %s" % os.path.join(d, "patch.diff"), cwd=wt)
+            if rc:
+                print(sid, "patch does not apply:", out[:200])
+                bad.append(sid)
+                continue
+            try:
+                for prop in props:
+                    env = dict(os.environ, VERIF_REPO=wt)
+                    t0 = time.time()
+                    rc, out = sh("%s check.py %s --no-evidence --no-shrink" % (PY, prop), cwd=VERIF, timeout=3000, env=env)
+                    viol = [ln for ln in out.splitlines() if ln.startswith("VIOLATION")]
+                    ok = rc == 1 and bool(viol)
+                    print("%-7s %-4s %s rc=%d violations=%d %.0fs" % (sid, prop, "caught" if ok else "MISSED", rc, len(viol), time.time() - t0))
+                    sys.stdout.flush()
+                    if not ok:
+                        bad.append("%s/%s" % (sid, prop))
+            finally:
+                sh("git checkout -- .", cwd=wt)
+    finally:
+        sh("git -C /repo worktree remove --force %s" % wt)
+    print("seed regression: %d not caught: %r" % (len(bad), bad))
+    return 0 if not bad else 1
+
+
 if __name__ == "__main__":
+    if sys.argv[1] == "regress":
+        sys.exit(regress(sys.argv[2:]))
     if sys.argv[1] == "confirm":
         sys.exit(confirm(sys.argv[2], sys.argv[3], sys.argv[4]))
     sys.exit(detect(sys.argv[2], sys.argv[3:]))
